@@ -483,6 +483,12 @@ func TestReferences(t *testing.T) {
 			if len(body) > 8 {
 				body = body[:8]
 			}
+			if rapid.IntRange(0, 4).Draw(t, "wide") == 0 {
+				// more than 32 bits: the low word alone would be a valid code point
+				lo := rapid.SampledFrom([]uint64{0x41, 0x3c, 0x22, 0x26, 0xe9, 0x1f600, 0x10ffff}).Draw(t, "lo")
+				hi := uint64(rapid.IntRange(1, 0xffffff).Draw(t, "hi"))
+				body = strconv.FormatUint(hi<<32|lo, 16)
+			}
 		default:
 			body = rapid.SampledFrom(entityNames).Draw(t, "name")
 		}
